@@ -220,7 +220,8 @@ func init() {
 		Rule: "cases = seeded operation histories (append/insert/set/remove/get/settype/popiterate incl. out-of-range requests, nested containers, strings around the inline limit and larger than a slab) " +
 			"on one root array, slab size per case from {256,512,1024,32768,random}; every return value compared with a Go slice model after every operation, " +
 			"structure walked after every operation, API deep-compare on fresh handles, cold reopen by root id after commits. " +
-			"non-trivial = the array spanned >=3 slabs at depth >=2 and the storage proxy saw >=1 operation that created tree slabs and >=1 that removed slabs; distinct by hash(config, operation list)",
+			"non-trivial = the array spanned >=3 slabs at depth >=2 and the storage proxy saw >=1 operation that created tree slabs and >=1 that removed slabs; distinct by hash(config, operation list). " +
+			"The last 32 cases are a SMALL-SCOPE EXHAUSTIVE exploration at slab size 256: every sequence of 4 (quick) / 5 (thorough) operations over a 13-operation alphabet (append tiny / third / maximal / maximal+1-byte element, insert front / middle, set middle, remove front / middle / back) from 3 start states, with model, structure, reachability, byte-level and API deep comparison after every operation and a cold rebuild at the end of every sequence",
 		Assumptions: []string{
 			"one canonical handle per container (a client that caches one object per value id); handles of descendants are re-acquired after a parent handle is refreshed",
 			"elements are test_utils scalar/string/wrapper values and nested atree containers; type infos use CBOR tags outside atree's reserved range",
@@ -228,33 +229,34 @@ func init() {
 		},
 		Cases: func(tier string) int {
 			if tier == "thorough" {
-				return 16 * 220
+				return 16*220 + ssParts
 			}
-			return 16 * 40
+			return 16*40 + ssParts
 		},
 		Run:           runC01,
 		MinNonTrivial: 8,
-		Mandatory:     []string{"ops_that_created_slabs", "ops_that_removed_slabs", "cold_reopens", "rejected_requests"},
+		Mandatory:     []string{"ops_that_created_slabs", "ops_that_removed_slabs", "cold_reopens", "rejected_requests", "small-scope-sequences-array"},
 	})
 	register(&Prop{
 		ID:    "C02",
 		Level: "exploration",
 		Rule: "cases = seeded operation histories (set/update/remove/get/has/settype/popiterate incl. absent keys next to present ones, keys of every scalar kind, strings around the key inline limit, wrapped keys, nested containers as values) " +
 			"on one root map under the default digester or an order-revealing harness digester; every return value compared with a Go map model after every operation, structure walked after every operation (incl. digest-of-key = filing position), cold reopen after commits. " +
-			"non-trivial = the map spanned >=3 slabs, >=1 slab-creating and >=1 slab-removing operation, >=1 absent-key lookup; distinct by hash(config, operation list)",
+			"non-trivial = the map spanned >=3 slabs, >=1 slab-creating and >=1 slab-removing operation, >=1 absent-key lookup; distinct by hash(config, operation list). " +
+			"The last 32 cases are a SMALL-SCOPE EXHAUSTIVE exploration at slab size 256: every sequence of 3 (quick) / 4 (thorough) operations over an 18-operation alphabet (set tiny / set maximal / remove for each of 6 keys whose digests collide on level 0, on levels 0+1, or not at all) from 3 start states, with the same monitors after every operation",
 		Assumptions: []string{
 			"one canonical handle per container; nested maps always use the default digester (the library re-creates them that way)",
 			"verdict covers only the generated histories (exploration, not proof)",
 		},
 		Cases: func(tier string) int {
 			if tier == "thorough" {
-				return 16 * 220
+				return 16*220 + ssParts
 			}
-			return 16 * 20
+			return 16*20 + ssParts
 		},
 		Run:           runC02,
 		MinNonTrivial: 8,
-		Mandatory:     []string{"ops_that_created_slabs", "ops_that_removed_slabs", "cold_reopens", "absent-get"},
+		Mandatory:     []string{"ops_that_created_slabs", "ops_that_removed_slabs", "cold_reopens", "absent-get", "small-scope-sequences-map"},
 	})
 }
 
@@ -309,7 +311,20 @@ func basicCase(c *CaseCtx, kind string) *ContCase {
 	return cc
 }
 
+const ssParts = 32
+
+func basicCount(prop, tier string) int {
+	return registry[prop].Cases(tier) - ssParts
+}
+
 func runC01(c *CaseCtx) *CaseResult {
+	if base := basicCount("C01", c.Tier); c.Case >= base {
+		depth := 4
+		if c.Tier == "thorough" {
+			depth = 5
+		}
+		return runSmallScope(c, "array", depth, c.Case-base, ssParts)
+	}
 	cc := basicCase(c, "array")
 	if c.Case%11 == 10 {
 		// drain with bulk pop and regrow
@@ -322,6 +337,13 @@ func runC01(c *CaseCtx) *CaseResult {
 }
 
 func runC02(c *CaseCtx) *CaseResult {
+	if base := basicCount("C02", c.Tier); c.Case >= base {
+		depth := 3
+		if c.Tier == "thorough" {
+			depth = 4
+		}
+		return runSmallScope(c, "map", depth, c.Case-base, ssParts)
+	}
 	cc := basicCase(c, "map")
 	r := rand.New(rand.NewSource(c.CaseSeed() ^ 0xd16))
 	if c.Case%3 == 1 {
